@@ -75,7 +75,7 @@ def run(tier):
         c.mc_pass('CountTable', 'MC_CountTable_designpair_t.cfg', actions_required=acts, timeout=1500)
         c.mc_pass('CountTable', 'MC_CountTable_designtwo_t.cfg', actions_required=acts, workers=8, timeout=1500)
         negs = [('impl_D8', 'Inv_C11_Total'), ('impl_blacklist_end', 'Inv_C11_Table'), ('impl_splitkey', 'Inv_C11_Table'),
-                ('impl_strayindex', 'Inv_C11_Total')]
+                ('impl_strayindex', 'Inv_C11_Total'), ('impl_mate_strict', 'Inv_C11_Table')]
     for v, inv in negs:
         c.mc_negative('CountTable', 'MC_CountTable_%s_q.cfg' % v, expect_inv=[inv], workers=4, timeout=600)
 
@@ -102,37 +102,44 @@ def run(tier):
             good = e
             break
     if good is None:
-        raise vlib.MachineryError('no accepted non-trivial table observation available for the binding self-test')
-    strip = lambda e: {k: v for k, v in e.items() if k != 'bam'}
+        # no accepted base left: fine when the validation itself already rejected observations (the code under test is broken
+        # broadly), a machinery problem only when nothing was rejected
+        if not r['rejects']:
+            raise vlib.MachineryError('no accepted non-trivial table observation available for the binding self-test')
+        c.extra['binding_selftest_skipped'] = ('no accepted non-trivial observation left (%d of %d rejected by TLC)'
+                                               % (len(r['rejects']), len(tables)))
+    else:
+        strip = lambda e: {k: v for k, v in e.items() if k != 'bam'}
 
-    def weight_plus_one(evs):
-        evs[1]['table'][0]['w'] += 1
-        return evs
+        def weight_plus_one(evs):
+            evs[1]['table'][0]['w'] += 1
+            return evs
 
-    def drop_cell(evs):
-        evs[1]['table'] = evs[1]['table'][1:]
-        return evs
+        def drop_cell(evs):
+            evs[1]['table'] = evs[1]['table'][1:]
+            return evs
 
-    def other_sample(evs):
-        evs[1]['table'][0]['sample'] = 'cellZ'
-        return evs
+        def other_sample(evs):
+            evs[1]['table'][0]['sample'] = 'cellZ'
+            return evs
 
-    def fake_raise(evs):
-        evs[1]['raised'] = 'TypeError'
-        evs[1]['table'] = []
-        return evs
-    base = [strip(good['bam']), strip(good)]
-    ok = vlib.validate_trace('Trace_CountTable', vlib.write_ndjson(os.path.join(vlib.scratch(), 'st_base.ndjson'), base),
-                             constants=CONSTS)
-    c.selftest('uncorrupted_pair_is_accepted', not ok['rejects'])
-    for name, mut in [('weight_plus_one', weight_plus_one), ('drop_cell', drop_cell), ('other_sample', other_sample),
-                      ('fake_raise', fake_raise)]:
-        vlib.corrupt_selftest(c, 'Trace_CountTable', base, mut, name, constants=CONSTS)
+        def fake_raise(evs):
+            evs[1]['raised'] = 'TypeError'
+            evs[1]['table'] = []
+            return evs
+        base = [strip(good['bam']), strip(good)]
+        ok = vlib.validate_trace('Trace_CountTable', vlib.write_ndjson(os.path.join(vlib.scratch(), 'st_base.ndjson'), base),
+                                 constants=CONSTS)
+        c.selftest('uncorrupted_pair_is_accepted', not ok['rejects'])
+        for name, mut in [('weight_plus_one', weight_plus_one), ('drop_cell', drop_cell), ('other_sample', other_sample),
+                          ('fake_raise', fake_raise)]:
+            vlib.corrupt_selftest(c, 'Trace_CountTable', base, mut, name, constants=CONSTS)
 
     c.assumptions += ['count-table values are exact multiples of 1/24 up to 1e-6 (the driver refuses anything else before scaling)',
                       'XA tags are written in bwa format (every alternative hit terminated by ";"): reported hits = alternatives + 1',
-                      'reads the statement does not decide (single-end record under --r1only/--r2only; read strictly spanning a '
-                      'blacklist interval) may or may not be counted: the table must lie between the two readings']
+                      'mate selection excludes the OTHER mate: a record with neither mate flag passes --r1only/--r2only',
+                      'reads the statement does not decide (record with both mate flags under --r1only/--r2only; read strictly '
+                      'spanning a blacklist interval) may or may not be counted: the table must lie between the two readings']
     sig = set()
     for e in tables:
         o = e['opts']
